@@ -86,7 +86,7 @@ typedef struct vx_thr {
 	const void *blk_addr;
 	uint64_t deadline;            // vt at which a timed block expires
 	uint64_t blk_seq;             // FIFO order among waiters
-	int timed_out, handed;
+	int timed_out, handed, would_block, spurious;
 	int (*pred)(void *);
 	void *pred_ctx;
 	int join_target, epfd;
@@ -109,7 +109,7 @@ static pthread_key_t g_key;
 static vx_result *g_res;
 static uint64_t g_vt, g_step, g_stepcap, g_blkseq;
 static uint64_t g_horizon = 30 * NSEC;
-static int g_focus, g_timedev, g_trace;
+static int g_focus, g_timedev, g_trace, g_spurious = 1;
 static int g_io_only;              // C14: branch only at I/O syscalls on watched fds
 static int g_fault_budget, g_fault_pending;   // at most one injected I/O answer per execution
 static uint32_t g_pi;              // next prefix entry
@@ -350,8 +350,18 @@ static void vx_schedule(vx_thr *self)
 			while (nd > 0 && dl[nd - 1] > g_horizon) nd--;   // never jump past the horizon by choice
 		}
 		if (g_focus && at_io && g_fault_budget > 0) nf = 2;   // short transfer, EINTR (a spurious EAGAIN cannot happen on a pipe/file whose state we own)
-		int total = n + nd + nf, choice = 0;
+		// a blocking wait that is about to sleep may instead come back without a wake-up (futex(2): "a return
+		// value of 0 can mean a spurious wake-up"; sem_wait(3): EINTR): one more environment answer, cost 1
+		int ns = (g_focus && g_spurious && !g_io_only && self_en && self->would_block &&
+				(self->cur_kind == K_FUTEX_WAIT || self->cur_kind == K_SEM_WAIT)) ? 1 : 0;
+		int total = n + nd + nf + ns, choice = 0;
 		if (g_focus && total > 1 && (!g_io_only || at_io)) choice = next_choice(total, n, self_en);
+		if (choice >= n + nd + nf) {
+			if (g_trace) fprintf(stderr, "[vx]   choice %d/%d: the wait returns without a wake-up\n", choice, total);
+			self->spurious = 1;
+			target = self;
+			break;
+		}
 		if (choice >= n + nd) {
 			g_fault_pending = choice - (n + nd) + 1; g_fault_budget--;
 			if (g_trace) fprintf(stderr, "[vx]   choice %d/%d: inject I/O answer %d\n", choice, total, g_fault_pending);
@@ -443,6 +453,7 @@ void vx_expect_crash(void) { g_res->expect_crash = 1; }
 uint64_t vx_vt(void) { return g_vt; }
 void vx_set_horizon(uint64_t ns) { g_horizon = ns; }
 void vx_set_time_deviations(int on) { g_timedev = on; }
+void vx_set_spurious(int on) { g_spurious = on; }
 int vx_ncpu(void) { return g_ncpu; }
 int vx_self(void) { return vx_me ? vx_me->idx : -1; }
 void vx_note(const char *note) { if (vx_me) snprintf(vx_me->note, sizeof vx_me->note, "%s", note ? note : ""); }
@@ -602,7 +613,10 @@ static long vx_futex(uint32_t *uaddr, int op, uint32_t val, const struct timespe
 	int cmd = op & FUTEX_CMD_MASK;
 	switch (cmd) {
 	case FUTEX_WAIT:
+		self->would_block = (__atomic_load_n(uaddr, __ATOMIC_SEQ_CST) == val);
 		vx_pt(K_FUTEX_WAIT, uaddr);
+		self->would_block = 0;
+		if (self->spurious) { self->spurious = 0; g_res->nspurious++; return 0; }
 		if (__atomic_load_n(uaddr, __ATOMIC_SEQ_CST) != val) { errno = EAGAIN; return -1; }
 		vx_block(self, BLK_FUTEX, uaddr, rel_deadline(timeout));
 		if (self->timed_out) { errno = ETIMEDOUT; return -1; }
@@ -693,7 +707,10 @@ int __wrap_sem_post(sem_t *s)
 static int sem_wait_common(sem_t *s, uint64_t deadline)
 {
 	vx_thr *self = vx_me;
+	self->would_block = (*sem_cnt(s) <= 0 && !(deadline != NODL && deadline <= g_vt));
 	vx_pt(K_SEM_WAIT, s);
+	self->would_block = 0;
+	if (self->spurious) { self->spurious = 0; g_res->nspurious++; errno = EINTR; return -1; }
 	for (;;) {
 		if (*sem_cnt(s) > 0) { (*sem_cnt(s))--; return 0; }
 		if (deadline != NODL && deadline <= g_vt) { errno = ETIMEDOUT; return -1; }
@@ -1030,7 +1047,8 @@ void vx_child_main(const vx_harness *h, int variant, vx_result *res, uint64_t st
 	g_log = &res->log;
 	g_log->n = 0;
 	res->npoints = 0; res->verdict = V_NONE; res->expect_crash = 0; res->msg[0] = 0;
-	res->maxthreads = 0;
+	res->maxthreads = 0; res->nspurious = 0;
+	if (getenv("VX_NO_SPURIOUS")) g_spurious = 0;
 	g_trace = res->trace;
 	g_stepcap = stepcap;
 	g_timedev = h->time_deviations;
